@@ -33,6 +33,8 @@ CHECKS['C10'] = (T % ('lattice structures with <=3 (thorough 4) wires and every 
          'Every structure in the bound is solved and every direction of the grid compared. The 2 % clause is enumerated on the sub-alphabet (>=4 segments/wire, L<=lambda/32); two concrete inputs outside it are listed known findings.', 'MININEC constants named in the statement', '3/C10')
 CHECKS['C04'] = (T % ('lattice structures with <=2 (thorough 3) wires in both orientations (all junction end combinations, grounding at either end, unequal radii/segment lengths) and every description of the arc/helix/taper junction structures x observation points next to every wire middle, junction and free end at 1/1.5/3 x max(L, 0.01 lambda) and 12 points at 100/1000 wavelengths x 3 power levels', 'an independent field evaluation of the solved pulse currents and charges (analytic gradients, 64-point Gauss, physical constants, image currents) and with the reported far field'),
          'Every observation point of every structure in the bound is requested from the real compute_near_field and compared at the stated 1 %.', 'points closer than max(1 segment, 0.01 lambda) not enumerated (fixed 0.001 lambda finite difference: 2.8 % at lambda/480 segments, DESIGN 3/C04)', '3/C04')
+CHECKS['C08'] = (T % ('the full product of 13 frequencies x 5 R x 8 L x 14 C for series-RLC and trap loads, 40 Laplace coefficient vectors, skin-effect and insulation parameter grids, distributed loads on interior/junction/grounded pulses of two-wire structures (1-segment wires, both wire orders, different radii), and in solved lattice structures every pulse as loaded feed x 5 load sets x 2 attachment forms plus neutral loads and the four all-attachment forms', 'exact rational circuit arithmetic, the Kelvin-function skin-effect form, the closed-form insulation inductance times the conductor length of the pulse, and Z_in(with) - Z_in(without) = sum Z_L'),
+         'Every parameter combination of the menus is evaluated on the real load classes / solver.', 'scipy Kelvin functions; documented |kr|=110 asymptote', '3/C08')
 NA = {}
 def main():
     src = subprocess.run(['git', '-C', '/repo', 'log', '--format=%H %s'], capture_output=True, text=True).stdout
